@@ -80,6 +80,10 @@ PROPS = {
                 partial=["the 30 s rule is exercised for real only in the thorough tier (one 31 s scenario); in the quick tier it rests on the theorem, the regenerated constant Gen.streamRequestPeriodNs and the source pins"]),
     "C17": dict(lean=["Mav.Props.C17"], groups=[("C17", sizes(1, 1))], table_crosscheck=True, preamble=dialects_preamble,
                 trusted=["published CRC_EXTRA values are represented by the spec recipe (serialization guide) and the values pinned in the repository; the C library's tables are not available offline"]),
+    "C18": dict(lean=["Mav.Props.C18"], groups=[("C18", sizes(60, 1500))],
+                trusted=["encoding/xml, text/template and the Go compiler: the generated package is compiled and its behaviour observed (CRC_EXTRA, sizes, wire order through the VerifLayout hook, constants, dialect version); the abstract definition is rendered to XML by the harness",
+                         "the domain is dialect sets following the MAVLink naming rules: message names [A-Z][A-Z0-9_]*, field names that are identifiers, array lengths 1..255 without leading zeros, payload of at most 255 bytes, enum values below 2^64, enum-typed fields of an integer type"],
+                partial=["universal theorems cover message-name recovery, field-name recovery (mavname), the type table and array syntax, a**b evaluation and once-only processing of included files; the equality of the generator model and the XML-level specification on whole dialect sets is decided by differential runs (random grammar-based sets incl. diamonds, odd names, all value syntaxes), not proved"]),
     "C19": dict(lean=["Mav.Props.C19"], groups=[("C19", sizes(1, 1))], preamble=enums_preamble,
                 trusted=["strconv.Itoa/Atoi and strings.Split/Join modelled (Mav/Model/EnumText.lean); validated by TIE-D on every enum type",
                          "enum tables regenerated from the source text; the harness registry of enum types is generated from the same extraction"]),
